@@ -93,6 +93,46 @@ struct Ranged {
     #[schemars(length(equal = 3))]
     exactly: String,
 }
+/// exclusive bounds (schemars' derive only emits inclusive ones; hand-written schemas do emit these)
+fn num_schema(ty: schemars::schema::InstanceType, f: impl FnOnce(&mut schemars::schema::NumberValidation)) -> schemars::schema::Schema {
+    let mut nv = schemars::schema::NumberValidation::default();
+    f(&mut nv);
+    schemars::schema::SchemaObject { instance_type: Some(ty.into()), number: Some(Box::new(nv)), ..Default::default() }.into()
+}
+fn excl_fraction(_: &mut schemars::gen::SchemaGenerator) -> schemars::schema::Schema {
+    num_schema(schemars::schema::InstanceType::Number, |n| { n.minimum = Some(0.0); n.exclusive_maximum = Some(1.0); })
+}
+fn excl_positive(_: &mut schemars::gen::SchemaGenerator) -> schemars::schema::Schema {
+    num_schema(schemars::schema::InstanceType::Number, |n| { n.exclusive_minimum = Some(0.0); })
+}
+fn excl_below(_: &mut schemars::gen::SchemaGenerator) -> schemars::schema::Schema {
+    num_schema(schemars::schema::InstanceType::Number, |n| { n.exclusive_maximum = Some(-2.0); })
+}
+fn excl_open(_: &mut schemars::gen::SchemaGenerator) -> schemars::schema::Schema {
+    num_schema(schemars::schema::InstanceType::Number, |n| { n.exclusive_minimum = Some(-3.0); n.exclusive_maximum = Some(3.0); })
+}
+fn excl_int_open(_: &mut schemars::gen::SchemaGenerator) -> schemars::schema::Schema {
+    num_schema(schemars::schema::InstanceType::Integer, |n| { n.exclusive_minimum = Some(-5.0); n.exclusive_maximum = Some(5.0); })
+}
+fn excl_int_half(_: &mut schemars::gen::SchemaGenerator) -> schemars::schema::Schema {
+    num_schema(schemars::schema::InstanceType::Integer, |n| { n.minimum = Some(1.0); n.exclusive_maximum = Some(4.0); })
+}
+#[derive(Deserialize, Serialize, JsonSchema)]
+struct Exclusive {
+    #[schemars(schema_with = "excl_fraction")]
+    fraction: f64,
+    #[schemars(schema_with = "excl_positive")]
+    positive: f64,
+    #[schemars(schema_with = "excl_below")]
+    below: f64,
+    #[schemars(schema_with = "excl_open")]
+    open: f32,
+    #[schemars(schema_with = "excl_int_open")]
+    int_open: i32,
+    #[schemars(schema_with = "excl_int_half")]
+    int_half: u8,
+}
+
 /// limits and bounds that are exactly zero, or negative
 #[derive(Deserialize, Serialize, JsonSchema)]
 struct Zeros {
@@ -371,6 +411,7 @@ fn main() {
     t!(Ranged);
     t!(Annotated);
     t!(Zeros);
+    t!(Exclusive);
     t!([u8; 0]);
     t!([String; 1]);
     t!(UnitEnum);
